@@ -23,7 +23,9 @@ REQUIRED_THEOREMS = ['Properties.C11.' + t for t in (
     'tri_indices_spec', 'lu_assembly', 'lu_assembly_real', 'upper_diag_pos', 'identity_init_diag',
     'triSolve_correct', 'triSolve_matrix', 'hhApply_executed', 'hhSeq_executed', 'hhMatrix_executed', 'hh_passes_executed',
     'householder_init_rows', 'householder_ctor_rejects', 'householder_init_usable',
-    'lu_executed', 'qr_executed', 'svd_executed')]
+    'lu_executed', 'qr_executed', 'svd_executed',
+    'lu_fresh_usable', 'qr_fresh_usable', 'svd_fresh_usable', 'svd_odd_count_rejected', 'lu_identity_init_is_identity', 'svd_identity_init_is_identity',
+    'identity_init_needs_eps_lt_one', 'lu_passes_return_logabsdet', 'householder_passes_return_zero')]
 RULE = ("cases = (class in LU/QR/SVD/Naive/HouseholderSequence, features 1..6, Householder count 1..13 (odd, even, > features, "
         "> 2*features; SVD even only), init mode (identity_init / orthogonal_initialization True/False), parameter kind "
         "(fresh initialisation in native float32, fresh in float64, seeded random parameters in float64 incl. non-unit "
